@@ -196,7 +196,11 @@ def run(ctx: Ctx) -> None:
     sims = [("reloc_atclose", c(MaxSessions=3, MaxWrites=3, MaxK=2, MaxMoves=3, MDs=FS({"None", "A"})),
              24 if q else 300, 50, F._targets(ctx, False), 2),
             ("reloc_stream", c(MaxSessions=3, MaxWrites=3, MaxK=2, MaxMoves=3, Streaming=True), 8 if q else 100, 50,
-             F._targets(ctx, True), 2)]
+             F._targets(ctx, True), 2),
+            # the same without checksum algorithms (hash_checksum_algorithms=()): nothing in the metadata then tells an
+            # updated list from the old one, or a moved dataset from the one that used to live at that path
+            ("reloc_no_checksums", c(MaxSessions=3, MaxWrites=3, MaxK=2, MaxMoves=3, Hashing=False), 10 if q else 120,
+             50, [("fb", "", ()), ("npz", "", ()), ("tfrec", "", ())], 2)]
     tasks = []
     n_moves = 0
     for name, cc, num, depth, targets, eps in sims:
